@@ -146,6 +146,16 @@ Fixpoint dec_gops (fuel : list N) (l : list N) : option (list gop) :=
    case 3 : v                                -> ntp.Decode as sign |unix_ns|
    case 4 : rate r0 T0 delta ts              -> RTPTime NTPTime, then PacketNTP(ts) as sign |unix_ns|
    case 5 : delta rate                       -> uint32(Seconds(delta)*float64(rate)) *)
+(* ProcessSenderReport: the receiver keeps the pair of the most recent report, whatever its RTP time is (the RTP
+   timestamp wraps every 2^32 ticks: "older" cannot be decided by comparing the numbers) *)
+Definition sr_step (st : option (Z * Z)) (r : Z * Z) : option (Z * Z) := Some r.
+Definition sr_state (reports : list (Z * Z)) : option (Z * Z) := fold_left sr_step reports None.
+Fixpoint pairs_of (l : list N) : list (Z * Z) :=
+  match l with
+  | a :: b :: t => (Z.of_N a, Z.of_N b) :: pairs_of t
+  | _ => []
+  end.
+
 Definition run (c : list N) : list N :=
   match c with
   | 1%N :: t =>
@@ -160,5 +170,11 @@ Definition run (c : list N) : list N :=
       let ntp := sr_ntp_with frac53 (Z.of_N t0) (Z.of_N delta) in
       zN rtp :: zN ntp :: putz (packet_ntp ntp rtp (Z.of_N rate) (Z.of_N ts))
   | [5%N; delta; rate] => [zN (ticks53 (Z.of_N delta) (Z.of_N rate))]
+  (* 6 rate ts (rtp ntp)* : a receiver that has processed these sender reports in this order, then PacketNTP(ts) *)
+  | 6%N :: rate :: ts :: t =>
+      match sr_state (pairs_of t) with
+      | None => [0%N]
+      | Some (rtp, ntp) => 1%N :: putz (packet_ntp ntp rtp (Z.of_N rate) (Z.of_N ts))
+      end
   | _ => bad_case
   end.
